@@ -1102,6 +1102,10 @@ impl<'a> Lifter<'a> {
                         }
                     },
                 };
+                // a named observable bound inside a branch of this initialiser: the captured value is the result
+                if self.observe.as_ref().map(|o| !o.starts_with('@')).unwrap_or(false) && x.text.contains("let cap__ =") {
+                    return Ok(x);
+                }
                 if let Some((tname, recv)) = terms {
                     // emit `{ let s__terms = ..; <the ordinary let for s and the rest> }`
                     let pat_name = match &l.pat { syn::Pat::Ident(pi) => pi.ident.to_string(), _ => unreachable!() };
@@ -1146,10 +1150,11 @@ impl<'a> Lifter<'a> {
                 if let Some(obs) = self.observe.clone() {
                     if pat == obs {
                         // L17: observable — the value of this binding is the result
+                        // (`let cap__` marks the captured value: a branch that does not reach the binding is an arbitrary value)
                         if self.ret_ty.starts_with("Result<") {
-                            return Ok(v(format!("{{ let {pat} = {}; Ok::<{ty}, LErr>({pat}) }}", x.text), &format!("Result<{ty}, LErr>")));
+                            return Ok(v(format!("{{ let {pat} = {}; {{ let cap__ = {pat}; Ok::<{ty}, LErr>(cap__) }} }}", x.text), &format!("Result<{ty}, LErr>")));
                         }
-                        return Ok(v(format!("{{ let {pat} = {}; {pat} }}", x.text), &ty));
+                        return Ok(v(format!("{{ let {pat} = {}; {{ let cap__ = {pat}; cap__ }} }}", x.text), &ty));
                     }
                 }
                 let r = self.rest(rest, cont)?;
